@@ -56,6 +56,10 @@ def validate(ctx, runs, defs, prop_prefixes, keyfn=None):
                 if not lines:
                     raise vf.Inconclusive("scenario %s produced no trace (rc=%s): %s" % (sc["name"], rc, err[-1500:]))
                 last = json.loads(lines[-1])
+                amb = [ln for ln in lines if '"e":"Ambiguous"' in ln.replace(" ", "")]
+                if amb:
+                    # the harness could not attribute something it observed: no verdict from this run
+                    raise vf.Inconclusive("scenario %s: harness observation ambiguous: %s" % (sc["name"], amb[0][:300]))
                 if rc != 0:
                     crash = ("panic:" in err or "fatal error:" in err)
                     lib = "gomavlib/v3" in err
